@@ -19,7 +19,8 @@ import (
 )
 
 const rule = "cases = histories of Handle/HandleRoute/Update/UpdateRoute/Delete/Truncate (direct and inside committed/aborted transactions, " +
-	"with single-cause invalid calls) over trie-grown pattern pools with conflicting wildcard-name variants and 4 methods; " +
+	"with single-cause invalid calls) over trie-grown pattern pools with conflicting wildcard-name variants, truncations of pool patterns and common prefixes of pairs (never-registered patterns ending inside / exactly at tree edges) and 5 methods; " +
+	"uniform histories, directed transaction stories (write a pattern others extend, write below it, abort/commit), fully populated fan-out pools then edits, quiet transactions (not observed between their writes); " +
 	"evaluations = operations executed, each followed by a full comparison of every read API with the map model; " +
 	"distinct by (pool, history prefix); non-trivial when the operation is a write attempted on a non-empty table"
 
